@@ -835,6 +835,12 @@ fn main() {
     if args.kv.get("tapdump").map(|s| s == "1").unwrap_or(false) {
         pumpkin_solver::verif_hooks::tap_enable(true);
     }
+    if args.kv.get("eqassume").map(|s| s == "1").unwrap_or(false) {
+        config::EQ_ASSUME.store(true, std::sync::atomic::Ordering::Relaxed);
+    }
+    if args.kv.get("nolearning").map(|s| s == "1").unwrap_or(false) {
+        config::FORCE_NOLEARNING.store(true, std::sync::atomic::Ordering::Relaxed);
+    }
     if args.kv.get("allow-subset-random").map(|s| s == "1").unwrap_or(false) {
         config::ALLOW_SUBSET_RANDOM.store(true, std::sync::atomic::Ordering::Relaxed);
     }
